@@ -82,7 +82,13 @@ class EuropeanForwardStartOption(BaseDerivative):
         return ", ".join(params)
 
     def _start_index(self) -> int:
-        return floor(self.start / self.ul().dt)
+        # ``start`` that is an integer multiple ``k`` of ``dt`` up to floating point error
+        # (e.g. 0.6 / 0.1 == 5.999999999999999) means the ``k``-th time step.
+        ratio = self.start / self.ul().dt
+        nearest = round(ratio)
+        if abs(ratio - nearest) <= 1e-9 * max(1.0, abs(ratio)):
+            return nearest
+        return floor(ratio)
 
     def payoff_fn(self) -> Tensor:
         return european_forward_start_payoff(
